@@ -67,7 +67,7 @@ Fixpoint plan_eqb (a b : plan) : bool :=
   match a, b with
   | PCall m1 a1 t1, PCall m2 a2 t2 =>
       String.eqb m1 m2 && list_eqb json_eqb (map jnorm a1) (map jnorm a2) && Bool.eqb t1 t2
-  | PNone, PNone => true
+  | PErr e1, PErr e2 => String.eqb e1 e2
   | PIgnore p, PIgnore q => plan_eqb p q
   | PSeq p1 q1, PSeq p2 q2 => plan_eqb p1 p2 && plan_eqb q1 q2
   | _, _ => false
@@ -89,11 +89,11 @@ Fixpoint eval_plan (p : plan) (ds : list json) : string * list json :=
       | d :: r => (if jfB "ok" d then "ok" else "err", r)
       | [] => ("nodirect", [])
       end
-  | PNone => ("ok", ds)
   | PIgnore q => let '(c, r) := eval_plan q ds in (if String.eqb c "nodirect" then c else "ok", r)
   | PSeq a b =>
       let '(c1, r1) := eval_plan a ds in
       if String.eqb c1 "ok" then eval_plan b r1 else (c1, r1)
+  | PErr _ => ("err", ds)
   end.
 
 Definition class_of_plan (p : plan) (ds : list json) : string :=
@@ -225,32 +225,6 @@ Definition in_D25 (rq : request) : bool :=
     (negb (starts_brace t) && has_newline t && nonstring_uri (bt_yaml b)))) ||
   (is_post rq && (batch_nonstring_uri (bt_json b) || batch_nonstring_uri (bt_yaml b))).
 
-Definition is_composite (u : string) : bool :=
-  String.eqb u "/api/loc/facts/take" || String.eqb u "/api/loc/facts/replace".
-
-Fixpoint str_has_char (c : ascii) (s : string) : bool :=
-  match s with EmptyString => false | String d r => Ascii.eqb c d || str_has_char c r end.
-
-(** D63: an unchecked getter error on the decoded parameters. *)
-Definition in_D63 (rq : request) : bool :=
-  match decode svc_parameter_types rq with
-  | Ok (u, m) =>
-      (String.eqb u "/api/loc/util/js" &&
-       match get_string_param m "code" true with (_, _, Some _) => true | _ => false end) ||
-      ((String.eqb u "/api/loc/facts/add" || String.eqb u "/api/loc/rules/add") &&
-       match get_string_param m "id" false with (_, _, Some _) => true | _ => false end)
-  | _ => false
-  end.
-
-Definition clean_text (s : string) : bool := negb (str_has_char """" s || str_has_char "\" s).
-
-(** Does the Sprintf-assembled rendering of this batch element parse as JSON? *)
-Definition elem_renders_valid (lr : logical_request) (ds : list json) : bool :=
-  match expected_body lr ds with
-  | None => forallb (fun d => d_ok d || clean_text (jfS "msg" d)) ds
-  | Some _ => negb (String.eqb (lr_uri lr) "/api/loc/facts/get") || clean_text (jS (lstr "id" lr))
-  end.
-
 (** * One operation *)
 
 Record opv := { v_ok : bool; v_why : string; v_model : json;
@@ -289,9 +263,6 @@ Definition check_op (o : json) : opv :=
     let lrs := map logical_of_json (jfL "elems" o) in
     let dss := jfL "direct" o in
     let parsed := jfB "parsed" http in
-    (* the answer is assembled with Sprintf: an element is valid JSON unless an
-       error text or a facts/get id carries a quote or a backslash *)
-    let renders_valid := forallb2 (fun lr ds => elem_renders_valid lr (jL ds)) lrs dss in
     let model_ok :=
       match served with
       | Ok (ABatch es) =>
@@ -301,24 +272,17 @@ Definition check_op (o : json) : opv :=
                                 | _, _ => false
                                 end) es lrs &&
           Nat.eqb (length es) (length dss) &&
-          Bool.eqb parsed renders_valid &&
-          (negb parsed ||
-           forallb2 (fun pr g => String.eqb (belem_is_error (fst pr) (jL (snd pr))) (if has_error_key g then "err" else "ok"))
-                    (combine es dss) (jL (jget_d "body" http)))
+          parsed &&      (* ids and error texts are rendered with json.Marshal: the answer is JSON *)
+          forallb2 (fun pr g => String.eqb (belem_is_error (fst pr) (jL (snd pr))) (if has_error_key g then "err" else "ok"))
+                   (combine es dss) (jL (jget_d "body" http))
       | _ => false
       end in
     let spec := String.eqb hclass "ok" && parsed &&
                 spec_batch_elems lrs dss (jL (jget_d "body" http)) in
-    let kf :=
-      if spec then []
-      else if String.eqb hclass "ok" && negb parsed && negb renders_valid then
-        (if forallb2 (fun lr ds => match expected_body lr (jL ds) with None => elem_renders_valid lr (jL ds) | Some _ => true end) lrs dss
-         then ["D64"] else ["D65"])
-      else [] in
     {| v_ok := model_ok; v_why := if model_ok then "" else "batch: the model's elements differ from the intended / observed ones";
        v_model := JStr (class_of_outcome served []);
        v_spec := spec; v_spec_why := if spec then "" else "a batch element differs from the direct call's result (or the answer is not JSON)";
-       v_kf := kf; v_feat := [String.append "batch:" hclass] |}
+       v_kf := []; v_feat := [String.append "batch:" hclass] |}
   else
     let lr := logical_of_json (jget_d "logical" o) in
     let ds := jfL "direct" o in
@@ -332,14 +296,6 @@ Definition check_op (o : json) : opv :=
         | _, _, _ => false
         end in
       let spec := spec_wf lr http ds in
-      let exp := expected_body lr ds in
-      let kf :=
-        if spec then []
-        else if is_composite (lr_uri lr) && String.eqb hclass "ok" &&
-                match exp with None => true | Some _ => false end then ["D62"]
-        else if String.eqb (lr_uri lr) "/api/loc/facts/get" && String.eqb hclass "ok" && negb (jfB "parsed" http) &&
-                negb (clean_text (jS (lstr "id" lr))) then ["D64"]
-        else [] in
       {| v_ok := intent_ok && class_ok;
          v_why := if negb intent_ok then "the model does not decode the intended uri / parameters / call"
                   else if class_ok then "" else String.append "the model predicts status class " predicted;
@@ -347,7 +303,7 @@ Definition check_op (o : json) : opv :=
          v_spec := spec;
          v_spec_why := if spec then "" else
                        String.append (String.append (lr_uri lr) ": the HTTP answer differs from the direct call: class ") hclass;
-         v_kf := kf;
+         v_kf := [];
          v_feat := [String.append (String.append enc ":") hclass; short_uri (lr_uri lr);
                     String.append "prefix:" (jfS "prefix" o)] |}
     else
@@ -364,8 +320,6 @@ Definition check_op (o : json) : opv :=
         if spec then []
         else if String.eqb hclass "panic" then
           (if in_D24 rq then ["D24"] else if in_D61 rq then ["D61"] else if in_D25 rq then ["D25"] else [])
-        else if String.eqb hclass "ok" then
-          (if is_composite (lr_uri lr) then ["D62"] else if in_D63 rq then ["D63"] else [])
         else [] in
       {| v_ok := class_ok;
          v_why := if class_ok then "" else String.append "malformed request: the model predicts status class " predicted;
@@ -392,7 +346,7 @@ Definition check_service (c : json) : json :=
   let spec_bad := first_bad v_spec vs 0 in
   let failing := filter (fun v => negb (v_spec v)) vs in
   let explained := forallb (fun v => match v_kf v with [] => false | _ => true end) failing in
-  let feats := dedup_str (String.append "profile:" (jfS "profile" c) :: flat_map v_feat vs) in
+  let feats := dedup_str (flat_map v_feat vs) in
   JObj [("ok", JBool ok);
         ("at", match bad with Some (i, _) => JNum i | None => if dw_ok then JNull else JStr "dwim" end);
         ("why", JStr (match bad with
